@@ -2,7 +2,8 @@ import Litestream.Model.Lease
 import Litestream.Driver.Util
 /-! Driver handler for the lease model (C20): replays one schedule per line.
 
-`lease N=<clients> INIT=<-|gen:owner:+|-> M=<404|412> P=<prog>;<prog>;… S=<c>,<c>,…`
+`lease N=<clients> L=<d|s|e> INIT=<-|gen:owner:+|-> M=<404|412> P=<prog>;<prog>;… S=<c>,<c>,…`
+  L    = owner strings of the instances: d distinct (instance c writes owner c), s all the same (7), e all empty (8, printed `-`)
   prog = ops joined by `.`: `a+`/`a-` acquire with live/born-expired TTL, `r+`/`r-` renew, `x` release (may be empty)
   S    = client performing its next S3 request, in order
 Answer: `R=<c>/<request>,… O=<results of client 0>;<client 1>;… H=<holders at the end>`
@@ -66,11 +67,14 @@ def fmtReq (ws : List Rec) : ReqOut → String
   | .put (.ifMatch e) b resp => s!"put:im={fmtW ws e}:g{b.gen}:{fmtResp resp}"
   | .del e resp => s!"del:im={fmtW ws e}:{fmtResp resp}"
 
+/-- label standing for the empty `Owner` string (the error then names no owner) -/
+def emptyOwner : Nat := 8
+
 def fmtResult : Result → String
   | .ok l => s!"ok:g{l.body.gen}"
   | .released => "released"
   | .leaseExists none => "exists:-"
-  | .leaseExists (some o) => s!"exists:{o}"
+  | .leaseExists (some o) => if o == emptyOwner then "exists:-" else s!"exists:{o}"
   | .notHeld => "notheld"
   | .alreadyReleased => "alreadyreleased"
   | .leaseRequired => "required"
@@ -150,16 +154,18 @@ def handleLease (args : List (String × String)) : String :=
   let progs? : Option (List (List LOp)) := (arg? args "P").bind fun p => (splitOn1 p ';').mapM parseProg?
   let m? : Option Missing := match arg? args "M" with
     | some "404" => some .as404 | some "412" => some .as412 | _ => none
-  match natArg? args "N", (arg? args "INIT").bind parseInit?, m?, progs?, (arg? args "S").bind (natList? · ',') with
-  | some n, some init, some m, some progs, some sched =>
+  let label? : Option (Nat → Nat) := match arg? args "L" with
+    | some "d" => some id | some "s" => some (fun _ => 7) | some "e" => some (fun _ => emptyOwner) | _ => none
+  match natArg? args "N", (arg? args "INIT").bind parseInit?, m?, progs?, (arg? args "S").bind (natList? · ','), label? with
+  | some n, some init, some m, some progs, some sched, some label =>
     if progs.length != n || sched.any (· ≥ n) then "bad-op" else
-    let d0 : LState := { s := initState init, cs := progs.map fun p => { ops := p },
+    let d0 : LState := { s := initState init label, cs := progs.map fun p => { ops := p },
                          writes := match init with | some r => [r] | none => [⟨0, 0, 0⟩], m := m }
     let d := (sched.foldl (fun d c => d.request c) d0).finish n
     let holders := (List.range n).filter fun c => holdsB d.s c
     let hs := if holders.isEmpty then "-" else ",".intercalate (holders.map toString)
     "R=" ++ ",".intercalate d.reqs ++ " O=" ++ ";".intercalate (d.cs.map fun cl => ",".intercalate cl.results) ++ " H=" ++ hs
-  | _, _, _, _, _ => "bad-op"
+  | _, _, _, _, _, _ => "bad-op"
 
 def leaseHandlers : Handlers := [("lease", handleLease)]
 
